@@ -10,12 +10,12 @@ git checkout -q -- . ; rm -f $DEMODIR/zz_seed_demo_test.go
 git apply --check $SD/patch.diff || { echo "RESULT patch-does-not-apply"; exit 1; }
 git apply $SD/patch.diff
 echo "--- existing tests with patch: go test -vet=off -count=1 $*"
-if go test -vet=off -count=1 "$@" > /tmp/confirm_existing.log 2>&1; then EX=pass; else EX=FAIL; fi
-tail -3 /tmp/confirm_existing.log
+if go test -vet=off -count=1 "$@" > /tmp/confirm_$$_existing.log 2>&1; then EX=pass; else EX=FAIL; fi
+tail -3 /tmp/confirm_$$_existing.log
 cp $SD/demo_test.go $DEMODIR/zz_seed_demo_test.go
-if go test -vet=off -count=1 ./$DEMODIR/ -run 'Demo|Seed' > /tmp/confirm_demo1.log 2>&1; then D1=pass; else D1=FAIL; fi
+if go test -vet=off -count=1 ./$DEMODIR/ -run 'Demo|Seed' > /tmp/confirm_$$_demo1.log 2>&1; then D1=pass; else D1=FAIL; fi
 git checkout -q -- .
-if go test -vet=off -count=1 ./$DEMODIR/ -run 'Demo|Seed' > /tmp/confirm_demo0.log 2>&1; then D0=pass; else D0=FAIL; fi
+if go test -vet=off -count=1 ./$DEMODIR/ -run 'Demo|Seed' > /tmp/confirm_$$_demo0.log 2>&1; then D0=pass; else D0=FAIL; fi
 rm -f $DEMODIR/zz_seed_demo_test.go
 echo "RESULT existing=$EX demo_with_patch=$D1 demo_without_patch=$D0"
 [ "$EX" = pass ] && [ "$D1" = FAIL ] && [ "$D0" = pass ]
